@@ -12,18 +12,12 @@ import (
 type G struct {
 	r *rng.R
 	// what the value generator may produce
-	allowNestedMap2 bool // maps with >= 2 entries inside values
-	allowNaNAttr    bool // NaN doubles in attribute values
-	allowNegZero    bool // -0.0 in values
-	negZeroBounds   bool // -0.0 among histogram bounds (Float64Array.CopyFromSlice compares with ==)
-	allowArrays     bool // array values
-	big             bool
-	allowArrayInMap bool // arrays inside map values (codec defect: AnyValueArray.fixParent, see triggers.go)
-	inMap           int
-	safeKinds       bool // only kinds the traces comparison implements (no double, bytes, map)
+	allowArrays bool // array values
+	big         bool
+	inMap       int
+	safeKinds   bool // only kinds the traces comparison implements (no double, bytes, map)
 	// trigger switches
 	flagSummary   bool
-	nanBounds     bool
 	valueless     bool
 	histNoBuckets bool
 	nrvExemplars  bool
@@ -96,17 +90,11 @@ func (g *G) flt(nan bool) uint64 {
 		}
 		return floatClasses[g.r.Intn(len(floatClasses))]
 	case 5:
-		if g.allowNegZero {
-			return negZero
-		}
-		return 0
+		return negZero
 	default:
 		for {
 			b := g.r.U64()
 			if isNaNBits(b) && !nan {
-				continue
-			}
-			if b == negZero && !g.allowNegZero {
 				continue
 			}
 			return b
@@ -163,7 +151,7 @@ func (g *G) value(depth int) AV {
 	if depth <= 0 && (k == KSlice || k == KMap) {
 		k = g.r.Intn(6)
 	}
-	if k == KSlice && (!g.allowArrays || (g.inMap > 0 && !g.allowArrayInMap)) {
+	if k == KSlice && !g.allowArrays {
 		k = KStr
 	}
 	if g.safeKinds && (k == KDouble || k == KBytes || k == KMap) {
@@ -179,7 +167,7 @@ func (g *G) value(depth int) AV {
 	case KInt:
 		return AV{K: KInt, I: g.u64()}
 	case KDouble:
-		return AV{K: KDouble, I: g.flt(g.allowNaNAttr)}
+		return AV{K: KDouble, I: g.flt(true)}
 	case KBytes:
 		return AV{K: KBytes, Y: g.bytes()}
 	case KSlice:
@@ -190,8 +178,10 @@ func (g *G) value(depth int) AV {
 		}
 		return v
 	default:
-		n := g.r.Intn(2) // 0 or 1 entries: no trigger
-		if g.allowNestedMap2 && g.r.Chance(2, 3) {
+		// nested maps of 0, 1, 2 and several entries (maps of two or more entries were the trigger of the
+		// nested-map-index defect, fixed by repo commit 571960a)
+		n := g.r.Intn(3)
+		if g.r.Chance(1, 3) {
 			n = 2 + g.r.Intn(3)
 		}
 		v := AV{K: KMap}
@@ -220,7 +210,8 @@ func (g *G) attrsN(n, depth int) Attrs {
 }
 
 // relocAttrs: a map holding an array whose element varies, followed by a varying number of further
-// attributes, so that consecutive uses grow the re-used attribute list (trigger of class array-in-map).
+// attributes, so that consecutive uses grow the re-used attribute list and relocate its elements (this
+// was the trigger of the codec defect nested-array-stale-after-relocation, fixed by repo commit 3ddaede).
 func (g *G) relocAttrs() Attrs {
 	a := Attrs{{"m", AV{K: KMap, KV: Attrs{{"a", AV{K: KSlice, Arr: []AV{{K: KInt, I: uint64(g.r.Intn(3))}}}}}}}}
 	n := g.r.Intn(4)
@@ -231,7 +222,7 @@ func (g *G) relocAttrs() Attrs {
 }
 
 func (g *G) attrs() Attrs {
-	if g.allowArrayInMap && g.inMap == 0 && !g.safeKinds && g.r.Chance(1, 2) {
+	if g.inMap == 0 && !g.safeKinds && g.r.Chance(1, 8) {
 		return g.relocAttrs()
 	}
 	n := 0
@@ -411,11 +402,7 @@ func (g *G) bounds() []uint64 {
 	n := g.r.Intn(5)
 	var b []uint64
 	for i := 0; i < n; i++ {
-		x := g.flt(g.nanBounds)
-		if x == negZero && !g.negZeroBounds {
-			x = 0
-		}
-		b = append(b, x)
+		b = append(b, g.flt(true))
 	}
 	return b
 }
@@ -475,18 +462,20 @@ func (g *G) metrics() Metrics {
 	for i := 0; i < 1+g.r.Intn(3); i++ {
 		boundsPool = append(boundsPool, g.bounds())
 	}
-	if g.nanBounds {
-		// bounds that differ only in a NaN position: equal under pkg.Float64Compare
+	// pools whose members differ only where one holds a NaN or a zero of the other sign: these used to be
+	// merged (nan-bounds-merge, nan-attr-merge, negzero-* findings, fixed by 05846e0 / 59db810 / 7828c58)
+	if g.r.Chance(1, 5) {
+		// bounds that differ only in a NaN position
 		b := []uint64{floatClasses[1+g.r.Intn(len(floatClasses)-1)], floatClasses[1+g.r.Intn(len(floatClasses)-1)]}
 		b2 := []uint64{b[0], nanClasses[g.r.Intn(len(nanClasses))]}
 		boundsPool = [][]uint64{b, b2}
 	}
-	if g.negZeroBounds {
-		// bounds that differ only in the sign of a zero: equal under Go's == (slices.Equal in CopyFromSlice)
+	if g.r.Chance(1, 4) {
+		// bounds that differ only in the sign of a zero
 		x := floatClasses[1+g.r.Intn(len(floatClasses)-1)]
 		boundsPool = append(boundsPool, []uint64{0, x}, []uint64{negZero, x})
 	}
-	if g.allowNaNAttr {
+	if g.r.Chance(1, 5) {
 		// attribute sets that differ only in a NaN value
 		a := g.attrsN(g.r.Intn(2), 1)
 		a1 := append(cloneAttrs(a), KVp{"f", AV{K: KDouble, I: floatClasses[1+g.r.Intn(len(floatClasses)-1)]}})
@@ -564,7 +553,7 @@ func (g *G) span() Span {
 	if g.r.Chance(2, 3) {
 		s.Attrs = g.attrs()
 	}
-	if g.allowNegZero && g.r.Bool() {
+	if g.r.Chance(1, 4) {
 		// the same attribute slot holding +0.0 and -0.0 in consecutive spans
 		z := AV{K: KDouble}
 		if g.r.Bool() {
